@@ -181,6 +181,18 @@ CHECKS = {
             "the negated scale and same steps/convention, update_buffers=True refreshes the displacement, double inverse restores. Does not "
             "decide: the second-order accuracy of scaling-and-squaring inverses (numerical), GenericSpatialTransform.inverse.",
             "DESIGN.md 4/C07"),
+    "C05": (True, "E5(T5x)",
+            "abstract interpretation of ImageBatch/Image.sample, core grid_sample/sample_image and the SampleImage/TransformImage/AlignImage "
+            "modules on oriented grids with symbolic geometry, torch.grid_sample recorded; compared with the ITK identity-resampler index formula",
+            "Decides for D in {2,3}, every combination of source/target align_corners, shared and per-image grids: the normalised coordinates "
+            "and the align_corners flag handed to torch.grid_sample read target sample j at the continuous source index W_src^-1(W_tgt(j)), "
+            "W(i) = o + R diag(s) i, under torch's documented unnormalisation (i.e. what ITK's resampler with the identity transform reads); "
+            "the module API's precomputed matrix does the same for axes in {cube, WORLD, GRID}, with a linear transform given in those "
+            "axes, and with align_centers; linear/nearest and zeros/border/constant reach torch unchanged in meaning and constant padding "
+            "is exactly c + sample(data - c); sampling on an equal grid returns the image; sampling at explicit coordinates / point lists "
+            "equals sampling on the grid. Does not decide: interpolated values themselves (torch kernel vs ITK interpolators), float "
+            "rounding of coordinates, behaviour at the outermost half voxel (padding conventions differ between torch and ITK).",
+            "DESIGN.md 4/C05"),
 }
 
 NOT_BUILT_REASON = "static check for this property is designed (DESIGN.md section 4) but not yet built in this revision"
